@@ -54,4 +54,26 @@ CHECKS = {
         "required_probes": {"quick": ["query_overlaps_reload", "reload_ok", "reload_timed_out", "validation_failed", "reload_error"],
                             "thorough": ["query_overlaps_reload", "reload_ok", "reload_timed_out", "validation_failed", "reload_error", "decoy_published"]},
     },
+    "C12": {
+        "test": "TestC12",
+        "level": "exploration",
+        "budget": {"quick": 45, "thorough": 900},
+        "rule": ("as C05 with the response cache ON (LRU size 1..1024, WRS timeout 0/5 s), queries concentrated on few cache keys (different "
+                 "locations, types, classes, EDNS/ECS, mixed case), clock jumps across the 1000 s entry lifetime. Every response is compared with "
+                 "a cache-off handler of the same backend kind on the generation whose stamp it carries, and the reload/query history must be "
+                 "linearizable as a register. Non-trivial = at least one cache hit or a query overlapping a reload; distinct = schedule hash."),
+        "components": {
+            "real": REAL_SERVER + ["dnsserver.FBDNSDB.ServeDNS with the hashicorp LRU response cache", "cdb and rocksdb drivers on real files",
+                                   "reference: cache-off FBDNSDB per generation, same backend kind, outside the bubble"],
+            "stub": ["recording stats.Stats (cache hit/miss attribution per query) and Logger", "monitor wrapper around the real db.DBI"],
+            "simulated": ["clock (cache entry expiry reads time.Now of the bubble)", "goroutine scheduling at yield points (seeded)"],
+            "not_run": ["network", "fsnotify watchers"],
+        },
+        "assumptions": [
+            "interleavings are explored at the granularity of the verif yield points (one sits immediately before the cache insertion, one between database swap and purge)",
+            "weighted answers are compared for membership in the declared candidate set only",
+        ],
+        "required_probes": {"quick": ["cache_hit", "query_overlaps_reload", "reload_ok"],
+                            "thorough": ["cache_hit", "cache_expired", "query_overlaps_reload", "reload_ok"]},
+    },
 }
